@@ -9,10 +9,13 @@ import (
 	"encoding/json"
 	"flag"
 	"fmt"
+	"io"
 	"os"
 	"strings"
 
+	"github.com/itchio/lake/tlc"
 	"github.com/itchio/wharf/pwr"
+	"github.com/itchio/wharf/pwr/bowl"
 )
 
 type dripStep struct {
@@ -47,6 +50,7 @@ type realStep struct {
 }
 
 type dripTrace struct {
+	Via    string     `json:"via"` // pool | bowl-writer | bowl-transpose
 	Mode   string     `json:"mode"`
 	Unit   int        `json:"unit"`
 	Bs     int        `json:"bs"` // block size in units
@@ -92,8 +96,10 @@ func cmdC18Replay(args []string) error {
 	edges := fs.String("edges", "", "TLC output containing EDGE lines")
 	out := fs.String("out", "c18.ndjson", "trace output")
 	bsUnits := fs.Int("bs", 2, "block size in units (model BS)")
+	via := fs.String("via", "pool", "pool: the validating pool's writer; bowl-writer: the same walk through a pool bowl's entry writer; bowl-transpose: the walk's data copied whole by the pool bowl's Transpose")
 	fs.Parse(args)
 	unit := int(pwr.BlockSize) / *bsUnits
+	seenTriple := map[string]bool{}
 	rng := newRand(1800)
 	syms := [][]byte{randBytes(rng, unit), randBytes(rng, unit), randBytes(rng, unit), randBytes(rng, unit)}
 	expand := func(xs []int) []byte {
@@ -160,12 +166,64 @@ func cmdC18Replay(args []string) error {
 			sink = newWoundSink()
 			vp.Wounds = sink.ch
 		}
-		wr, err := vp.GetWriter(0)
-		if err != nil {
-			return err
-		}
 		data := expand(e.Data)
-		tr := dripTrace{Mode: e.Mode, Unit: unit, Bs: *bsUnits, Signed: e.Signed, Data: e.Data, Model: e.Hist, Steps: []realStep{}}
+		var wr io.WriteCloser
+		var pb bowl.Bowl
+		if *via != "pool" {
+			// a pool bowl writing into the validating pool; its "old build" is one file holding the walk's data
+			tc := &tlc.Container{Files: []*tlc.File{{Path: "f", Mode: 0644, Size: int64(len(data)), Offset: 0}}, Size: int64(len(data))}
+			tp := newMemFilePool(tc)
+			tp.files[0] = data
+			pb, err = bowl.NewPoolBowl(bowl.PoolBowlParams{TargetContainer: tc, SourceContainer: sig.Container, TargetPool: tp, OutputPool: vp})
+			if err != nil {
+				return err
+			}
+		}
+		switch *via {
+		case "pool":
+			wr, err = vp.GetWriter(0)
+			if err != nil {
+				return err
+			}
+		case "bowl-writer":
+			ew, err := pb.GetWriter(0)
+			if err != nil {
+				return err
+			}
+			if _, err := ew.Resume(nil); err != nil {
+				return err
+			}
+			wr = ew
+		case "bowl-transpose":
+			key := fmt.Sprint(e.Mode, e.Signed, e.Data)
+			if seenTriple[key] {
+				continue
+			}
+			seenTriple[key] = true
+			tr := dripTrace{Via: *via, Mode: e.Mode, Unit: unit, Bs: *bsUnits, Signed: e.Signed, Data: e.Data, Model: []dripStep{}, Steps: []realStep{}}
+			if tr.Signed == nil {
+				tr.Signed = []int{}
+			}
+			if tr.Data == nil {
+				tr.Data = []int{}
+			}
+			rs := realStep{Op: "close", N: len(e.Data)}
+			rs.Res = resOf(pb.Transpose(bowl.Transposition{TargetIndex: 0, SourceIndex: 0}))
+			rs.Inner = []int{}
+			if b := mp.out[0]; b != nil {
+				rs.Inner = toSyms(b.Bytes())
+				rs.InnerB = b.Len()
+			}
+			rs.Markers = []marker{}
+			if sink != nil {
+				sink.drain()
+				rs.Markers = append(rs.Markers, sink.got...)
+			}
+			tr.Steps = append(tr.Steps, rs)
+			w.emit(tr)
+			continue
+		}
+		tr := dripTrace{Via: *via, Mode: e.Mode, Unit: unit, Bs: *bsUnits, Signed: e.Signed, Data: e.Data, Model: e.Hist, Steps: []realStep{}}
 		if tr.Signed == nil {
 			tr.Signed = []int{}
 		}
